@@ -361,6 +361,14 @@ def run(ctx: Context) -> None:
                 after_marker = tcfg.dominates(stmt_of(tn, fl), first) and tcfg.dominates(first, st_c) and st_c.lineno < stmt_of(tn, wr).lineno
                 ok_carry = ok_carry and after_marker
                 why = f"kwargs['encoding'] rebuilt per item: {'; '.join(verdicts)}"
+        if len(carries) == 1 and ok_carry:
+            # ... whenever the caller gave one: the rebuilding stands under no other test than "an encoding was given"
+            from .common import facts as _f174
+            fs_c = _f174(ctx, tn, carries[0], expand=False)
+            about = {(t, pol) for t, pol in fs_c if kwn is not None and kwn in t}
+            given_forms = ({(f"{kwn}.get('encoding')", True)}, {(f"'encoding' in {kwn}", True)}, {(f"{kwn}.get('encoding') is not None", True)}, {(f"{kwn}.get('encoding') is None", False)}, set())
+            if about not in given_forms:
+                ok_carry, why = False, f"the encoding argument is rebuilt under {sorted(t if pol else 'not ' + t for t, pol in about)}"
         ctx.check('R17.4', ok_carry, "an `encoding` argument cannot undo the suppression: for every variable it names whose marker says 'no fill value', that marker is put into the "
                   "given encoding (the caller's own _FillValue wins), after the suppression and before the write", tn, carries[0] if carries else wr, construct=why)
         from .common import positive_conditions
@@ -513,6 +521,7 @@ from ..variants import V  # noqa: E402
 _U = 'src/emsarray/utils.py'
 _B = 'src/emsarray/conventions/_base.py'
 VARIANTS = [
+    V('C17', 'encoding-argument-looked-up-under-another-name', 'src/emsarray/utils.py', "    if kwargs.get('encoding'):\n", "    if kwargs.get('encodings'):\n", 'R17.4'),
     V('C17', 'time-bounds-taken-for-time', 'src/emsarray/conventions/_base.py', "            if name in bounds_names:\n                # The bounds of a time coordinate are decoded like the coordinate\n                continue\n", "", 'R17.5'),
     V('C17', 'bounds-names-from-data-vars', 'src/emsarray/utils.py', "        for variable in dataset.variables.values()\n        if 'bounds' in variable.attrs", "        for variable in dataset.data_vars.values()\n        if 'bounds' in variable.attrs", 'R17.5'),
     V('C17', 'abs-removed', _U, "divmod(abs(int(offset_total)), 60)", "divmod(int(offset_total), 60)", 'R17.1'),
